@@ -1,5 +1,6 @@
 from __future__ import annotations
 
+import copy
 import re
 from functools import total_ordering
 from typing import Any
@@ -31,8 +32,10 @@ class Base(str):
     def __lt__(self, other: Any) -> bool:
         return str(self) < str(other)
 
-    def __deepcopy__(self, memo: dict[str, Any] | None = None) -> Self:
-        return self.__class__(str(self))
+    def __deepcopy__(self, memo: dict[int, Any] | None = None) -> Self:
+        new = copy.copy(self)
+        new.__dict__.update(copy.deepcopy(self.__dict__, memo))
+        return new
 
     @property
     def compact(self) -> str:
